@@ -5,6 +5,7 @@ ROOT = os.path.dirname(os.path.dirname(os.path.abspath(__file__)))
 
 CHECKS = {
  "C01": ("round-trip monitor: decode(encode(v)) ok, re-encode byte-identical, library PartialEq, hex path == bytes path, over typed generators (all 2^18 body presence masks, width lattice, sized random values of ~125 types)", "4/C01"),
+ "C02": ("abort monitor: every parser call runs under catch_unwind with a panic hook that attributes the panic to the innermost library frame; calls that may kill the process (huge declared lengths, deep nesting) run in forked children whose exit status / signal is classified; unexpected fatal signals are caught by a crash marker and the shard is resumed; every accepted value is re-serialized and the bytes re-read by the independent CBOR reader; release and overflow-checking builds", "4/C02"),
  "C03": ("independent CBOR reader + schema-directed Conway CDDL validator + encoding-discipline checker (vkit, shares no code with the library or cbor_event) run over the bytes the library emits for typed values and builder transactions", "4/C03"),
  "C05": ("ledger preservation-of-value (consumed == produced, lovelace and every asset) evaluated by an independent ledger model on the built transaction bytes re-read by the independent CBOR reader against the scenario's UTxO table, over generated builder histories", "4/C05"),
  "C06": ("the built transaction is really signed with exactly the distinct required keys (harness key ring) and the Conway minimum fee (linear + ex-unit cost + tiered reference-script fee, exact rationals) is recomputed on the signed bytes; set_min_fee / set_fee requests checked on the emitted fee field", "4/C06"),
